@@ -4,3 +4,4 @@ pub mod spec;
 pub mod util;
 pub mod c07;
 pub mod scratch;
+pub mod c06;
